@@ -196,7 +196,7 @@ def build_modifier(spec, modifierspec, channelname, samplename, sampledata):
             np.divide(
                 modifierspec['data'],
                 sampledata,
-                out=np.zeros_like(sampledata),
+                out=np.zeros_like(sampledata, dtype='float'),
                 where=np.asarray(sampledata) != 0,
                 dtype='float',
             ).tolist(),
